@@ -22,7 +22,7 @@ pub fn ref_type(t: ReferenceType) -> String {
 /// marker text for a value outside the modelled constructors (U+E000 private use + constructor name)
 pub fn unmodelled(debug: &str) -> String {
     let name: String = debug.chars().take_while(|c| c.is_alphanumeric() || *c == '_').collect();
-    format!("\u{e000}unmodelled:{}", name)
+    format!("\u{e000}unmodelled{}", name)
 }
 
 pub fn dinline(i: &DocumentInline) -> String {
